@@ -12,6 +12,7 @@ Local Open Scope N_scope.
 
 Inductive cmd :=
 | CSimple (ops : list mop)
+| CIfFree (t : nat) (ops : list mop)      (* program order of thread t: run ops only if t is not blocked in remove_logger_blocking *)
 | CPoll (inj : list (N * list mop)).
 
 Fixpoint inj_of (inj : list (N * list mop)) (y : N) : list mop :=
@@ -63,7 +64,11 @@ Definition poll_ops (K : cfg) (inj : list (N * list mop)) (s : st) : list mop :=
   o1 ++ o2 ++ o3 ++ [FCount].
 
 Definition cmd_ops (K : cfg) (s : st) (c : cmd) : list mop :=
-  match c with CSimple ops => ops | CPoll inj => poll_ops K inj s end.
+  match c with
+  | CSimple ops => ops
+  | CIfFree t ops => if tfree s t then ops else []
+  | CPoll inj => poll_ops K inj s
+  end.
 
 Fixpoint exec (K : cfg) (s : st) (cs : list cmd) : st :=
   match cs with
@@ -72,6 +77,7 @@ Fixpoint exec (K : cfg) (s : st) (cs : list cmd) : st :=
   end.
 
 (* ------------------------------------------------------------------ decoding
+   commands: 11 n (y ntok tok..)*n poll with injections | 12 poll | 13 t ntok tok.. simple commands if thread t is free
    simple commands: 1 h name | 2 h | 3 v name k h1..hk | 4 v name | 5 t v m | 6 v | 7 t v | 8 t | 9 | 10 *)
 Fixpoint take_n (k : nat) (l : list N) : list N * list N :=
   match k with
@@ -131,6 +137,7 @@ Fixpoint dec_cmds (fuel : nat) (l : list N) : list cmd :=
     | [] => []
     | 11 :: n :: r => let (inj, r') := dec_inj (N.to_nat n) r in CPoll inj :: dec_cmds f r'
     | 12 :: r => CPoll [] :: dec_cmds f r
+    | 13 :: t :: ntok :: r => let (toks, r') := take_n (N.to_nat ntok) r in CIfFree (N.to_nat t) (dec_simple (length toks) toks) :: dec_cmds f r'
     | _ =>
         match simple_len l with
         | O => []
